@@ -111,6 +111,7 @@ type Report struct {
 	violations  map[string]*Violation
 	vorder      []string
 	unstable    int
+	unlistedN   int
 	extra       map[string]interface{}
 	assumptions []string
 	rule        string
@@ -266,10 +267,13 @@ func (r *Report) Violate(key, what string, c interface{}, rerun func() bool) {
 		r.mu.Unlock()
 		return
 	}
-	if len(r.violations) >= 200 {
+	if r.isKnown(key) == nil && r.unlistedN >= 200 {
 		r.extra["violations_truncated"] = true
 		r.mu.Unlock()
 		return
+	}
+	if r.isKnown(key) == nil {
+		r.unlistedN++
 	}
 	v := &Violation{Key: key, What: what, Case: c}
 	r.violations[key] = v
@@ -357,7 +361,11 @@ func (r *Report) Finish() {
 	unlisted := 0
 	var lines []string
 	seenKnown := map[string]bool{}
-	os.MkdirAll(filepath.Join(Root(), "replays"), 0o755)
+	outRoot := Root()
+	if d := os.Getenv("VERIF_EVIDENCE_DIR"); d != "" {
+		outRoot = d
+	}
+	os.MkdirAll(filepath.Join(outRoot, "replays"), 0o755)
 	sort.Strings(r.vorder)
 	var vsum []map[string]interface{}
 	for _, key := range r.vorder {
@@ -370,7 +378,7 @@ func (r *Report) Finish() {
 			unlisted++
 			h := sha1.Sum([]byte(key))
 			name := fmt.Sprintf("%s-%s.json", r.Property, hex.EncodeToString(h[:6]))
-			path := filepath.Join(Root(), "replays", name)
+			path := filepath.Join(outRoot, "replays", name)
 			data, _ := json.MarshalIndent(map[string]interface{}{
 				"property": r.Property, "key": key, "what": v.What, "case": v.Case, "stable": v.Stable,
 			}, "", " ")
@@ -403,7 +411,7 @@ func (r *Report) Finish() {
 		ev["assumptions"] = []string{}
 	}
 	if !replaying {
-		dir := filepath.Join(Root(), "evidence")
+		dir := filepath.Join(outRoot, "evidence")
 		os.MkdirAll(dir, 0o755)
 		data, err := json.MarshalIndent(ev, "", " ")
 		if err != nil {
